@@ -687,11 +687,12 @@ class Gen:
             else:
                 rstmt = [s_call(rid, self.args_for(sc, tys, 1, bin_(2, var(sc.depth_param), int_lit(1))))]
             inner.append(s_if([(bin_(11, var(sc.depth_param), int_lit(0)), rstmt)], []))
+        ndecl = len(body)      # declarations and their initialisation come first
         body += inner
         if isfn:
             body.append(s_retset(self.string(sc, 2) if ret == STR else self.num(sc, 2, ret)))
             if self.chance(0.3):
-                body.insert(self.r.randint(0, len(body) - 1),
+                body.insert(max(ndecl, self.r.randint(0, len(body) - 1)),
                             s_retset(self.string(sc, 1) if ret == STR else self.num(sc, 1, ret)))
         self.p.rbodies.append([isfn, params, ret if isfn else I, body])
 
